@@ -16,5 +16,6 @@ s = repl('| commit | subject |\n|---|---|\n', fixes, s)
 s = repl('| seeded change | property | status | caught by |\n|---|---|---|---|\n', '\n'.join(rows), s)
 s = re.sub(r'\d+ changes are kept under', '%d changes are kept under' % len(rows), s)
 s = re.sub(r'all \d+ are caught by the committed checks', 'all %d are caught by the committed checks' % len(rows), s)
+s = re.sub(r'except the \w+ marked `neutralised-by-fix`', 'except the %d marked `neutralised-by-fix`' % sum(1 for r in rows if 'neutralised-by-fix' in r), s)
 open('/verif/DESIGN.md', 'w').write(s)
 print(len(log), 'fixes', len(rows), 'seeded')
